@@ -5,6 +5,7 @@ import os
 import shutil
 from concurrent.futures import ThreadPoolExecutor
 
+import code_tie
 import vlib
 
 META = {
@@ -31,6 +32,7 @@ META = {
 MODEL = ["theories/Obj/ObjText.vo"]
 PROOFS = ["theories/Props/C18.vo"]
 STATEMENT_FILES = ["theories/Props/C18.v", "theories/Obj/ObjGen.v"]
+SEMANTIC_TIE = code_tie.functions("C18")   # Go bodies proved equal to the model (Props/C18Code.v)
 
 
 def sha(b):
@@ -614,6 +616,7 @@ def run(ck):
             ck.discharged = list(ck.obligations)
     if ck.thorough and proofs_ok:
         ck.coqchk(["Verif.Props.C18"])
+    code_tie.run(ck, "C18")
 
     binp = ck.build_harness("c18")
     cases = []
